@@ -1,3 +1,3 @@
 SPECIFICATION Spec
-INVARIANTS RevokedNeverValid ForeignIgnored GoodKeeps
+INVARIANTS RevokedNeverValid ForeignIgnored GoodKeeps BatchIrrelevant
 CHECK_DEADLOCK FALSE
